@@ -17,7 +17,7 @@ TLP = {
     "red": "marking-definition--5e57c739-391a-4eb3-b6be-7d15ca92d5ed",
 }
 TS = ["2016-01-01T00:00:00.000Z", "2017-02-03T04:05:06.000Z", "2018-11-12T13:14:15.123Z", "2020-06-30T23:59:59.999Z"]
-LATER = ["2031-01-01T00:00:00.000Z", "2032-05-05T05:05:05.500Z"]
+LATER = ["2025-01-01T00:00:00.000Z", "2026-02-05T05:05:05.500Z"]
 
 
 class Ref:
